@@ -28,6 +28,9 @@ pub enum Op {
     Gc { m: u8, full: bool },
     Pin { m: u8, slot: u8 },
     Unpin { m: u8, slot: u8 },
+    /// the second mutator allocates an object that goes into the lowest empty root slot of the
+    /// FIRST mutator (so that it outlives its allocating mutator)
+    AllocBy1 { size: u32 },
     /// bind / destroy the second mutator
     Bind1,
     Destroy1,
@@ -45,6 +48,7 @@ impl Op {
             Op::Gc { m, full } => json!({"op": "gc", "m": m, "full": full}),
             Op::Pin { m, slot } => json!({"op": "pin", "m": m, "slot": slot}),
             Op::Unpin { m, slot } => json!({"op": "unpin", "m": m, "slot": slot}),
+            Op::AllocBy1 { size } => json!({"op": "allocby1", "size": size}),
             Op::Bind1 => json!({"op": "bind1"}),
             Op::Destroy1 => json!({"op": "destroy1"}),
         }
@@ -61,6 +65,7 @@ impl Op {
             "gc" => Op::Gc { m: u("m"), full: v["full"].as_bool().unwrap_or(true) },
             "pin" => Op::Pin { m: u("m"), slot: u("slot") },
             "unpin" => Op::Unpin { m: u("m"), slot: u("slot") },
+            "allocby1" => Op::AllocBy1 { size: v["size"].as_u64().unwrap() as u32 },
             "bind1" => Op::Bind1,
             "destroy1" => Op::Destroy1,
             other => crate::common::machinery_failure(&format!("unknown op {}", other)),
@@ -170,6 +175,11 @@ impl Abs {
             v.push(Op::Gc { m: 0, full });
         }
         if a.two_mutators {
+            if self.bound1 && self.occ[0].iter().any(|o| !o) {
+                for &size in &a.sizes {
+                    v.push(Op::AllocBy1 { size });
+                }
+            }
             if self.bound1 {
                 v.push(Op::Destroy1);
             } else {
@@ -180,6 +190,12 @@ impl Abs {
     }
     fn apply(&mut self, op: &Op) {
         match *op {
+            Op::AllocBy1 { .. } => {
+                let s = self.occ[0].iter().position(|o| !o).unwrap();
+                self.occ[0][s] = true;
+                self.pinned[0][s] = false;
+                self.dirty = true;
+            }
             Op::Alloc { m, .. } | Op::Burst { m, .. } | Op::EphChain { m, .. } => {
                 let s = self.occ[m as usize].iter().position(|o| !o).unwrap();
                 self.occ[m as usize][s] = true;
@@ -351,6 +367,13 @@ pub fn step(w: &mut World, op: &Op) -> Result<(), Fail> {
         Op::Unpin { m, slot } => {
             let id = w.root(m as usize, slot as usize).expect("unpin of empty root");
             w.pin(id, false)?;
+        }
+        Op::AllocBy1 { size } => {
+            let slot = (0..SLOTS).find(|s| w.root(0, *s).is_none()).expect("allocby1 with no empty root slot");
+            let tmp = crate::vm::MAX_ROOTS - 1;
+            let id = w.alloc_obj(1, tmp, size as usize, 2, 8, Sem::Default, false)?.ok_or(("alloc:null".to_string(), "alloc returned null".to_string()))?;
+            w.set_root(0, slot, Some(id));
+            w.set_root(1, tmp, None);
         }
         Op::Bind1 => w.bind(1),
         Op::Destroy1 => w.destroy(1),
